@@ -260,113 +260,8 @@ func checkC04(c *Ctx, r *Report) {
 		}
 	}
 
-	// ---- (3) confidentiality pad validation
-	r.Rule("pad-validated", "ipmi.AES128CBC.DecodeFromBytes succeeds only after bounding the pad length by the block size and comparing every pad byte with a counter starting at 1", 3)
-	aes := c.Method("pkg/ipmi", "AES128CBC", "DecodeFromBytes")
-	if aes == nil {
-		r.Lost("ipmi.AES128CBC.DecodeFromBytes")
-	} else {
-		name := c.FnName(aes)
-		r.Fn(name)
-		// Decided on engine E2's comparison events, whatever form the loop takes: on every
-		// success path (1) the pad-length byte P — the last byte of the input — is at most
-		// the block size; (2) a loop compares consecutive bytes, from index (last − P) up to
-		// the pad-length byte, with 1,2,3,…, on every iteration; (3) no comparison of an
-		// input byte came out unequal on a path that succeeds.
-		evs, why := extractEvents(c, aes, nil)
-		nOK := 0
-		okCmp, okMis, okLoop, okBound := true, true, true, true
-		whyCmp := why
-		for _, le := range evs {
-			if !le.OK {
-				continue
-			}
-			nOK++
-			// the pad-length byte: a loaded input byte at index len(data)−1
-			var padSym Sym = -1
-			var lastIdx Lin
-			for sy, ref := range le.Elem {
-				if ref.Org != "d" || len(ref.Idx.T) != 1 || ref.Idx.C != -1 {
-					continue
-				}
-				for ls, k := range ref.Idx.T {
-					if k == 1 && strings.HasPrefix(le.SymName(ls), "len(") && (padSym < 0 || sy < padSym) {
-						padSym, lastIdx = sy, ref.Idx
-					}
-				}
-			}
-			if padSym < 0 {
-				okCmp, whyCmp = false, "the pad-length byte (last input byte) is never read"
-				continue
-			}
-			P := linSym(padSym)
-			if !entails(le.Cons, leq(P, linConst(16))) {
-				okBound = false
-			}
-			for _, ev := range le.eventsOf("cmp", "d") {
-				if strings.HasPrefix(ev.Val, "ne") {
-					okMis = false
-				}
-			}
-			found := false
-			last := "no loop compares the pad bytes with 1,2,3,…"
-			for _, ev := range le.eventsOf("loop:cmp", "d") {
-				if !strings.HasPrefix(ev.Val, "eq") {
-					continue
-				}
-				run, w := runOf(ev)
-				if w != "" {
-					last = w
-					continue
-				}
-				if !linEq(run.V0, linConst(1)) || run.VAdv != 1 {
-					last = "the expected pad values do not start at 1 and rise by 1"
-					continue
-				}
-				if !linEq(run.Idx0, lastIdx.add(P, -1)) {
-					last = "the comparison does not start at the first pad byte (last − pad length)"
-					continue
-				}
-				if cov, w := run.coversUpTo(lastIdx, le.Cons); !cov {
-					last = w
-					continue
-				}
-				// on every way round the loop
-				every := true
-				for _, mk := range le.Events {
-					if mk.Kind != "loop:path" || mk.Loop == nil || mk.Loop.Pos != ev.Loop.Pos {
-						continue
-					}
-					has := false
-					for _, e2 := range le.eventsOf("loop:cmp", "d") {
-						if e2.Loop != nil && strings.Join(e2.Loop.Guard, " ∧ ") == mk.Name && strings.HasPrefix(e2.Val, "eq") && e2.Pos == ev.Pos {
-							has = true
-						}
-					}
-					if !has {
-						every = false
-					}
-				}
-				if !every {
-					okLoop = false
-					last = "an iteration can continue without the pad byte having compared equal"
-					continue
-				}
-				found = true
-			}
-			if !found {
-				okCmp, whyCmp = false, last
-			}
-		}
-		if nOK == 0 {
-			r.Unk(name+"|pad-byte comparison", aes.Pos(), "no success path extracted: "+why)
-		} else {
-			r.Check(okCmp, name+"|pad-byte comparison", aes.Pos(), "a loop compares pad byte k with k, k = 1…n, for exactly the n bytes before the pad-length byte", "no loop comparing each confidentiality pad byte with its expected value 1,2,3,…: "+whyCmp)
-			r.Check(okMis, name+"|pad mismatch is an error", aes.Pos(), "no success path has an unequal pad comparison", "a mismatching pad byte does not lead to an error return")
-			r.Check(okLoop, name+"|success passes the pad loop", aes.Pos(), "every iteration compares", "the pad comparison is skipped on some iterations")
-			r.Check(okBound, name+"|pad length bounded", aes.Pos(), "pad length ≤ block size on success", "the pad-length byte is not bounded by the block size before use")
-		}
-	}
+	// ---- (3) confidentiality pad validation (shared with C01)
+	checkPadValidated(c, r)
 
 	// ---- (4) closure rejects on decode error / wrong innermost layer (shared shape with C10)
 	r.Rule("reject-undecodable", "a reply that fails to decode (bad signature, bad pad, truncated) or lacks the message layer makes the in-session closure return non-nil", 2)
@@ -520,4 +415,115 @@ func hashHelperShape(fn *ssa.Function) string {
 		}
 	}
 	return ""
+}
+
+// checkPadValidated: rule (3) of C04. Shared with C01: a conforming encrypted reply of any
+// length is only returned to the caller if the pad is looked for where the peer put it.
+func checkPadValidated(c *Ctx, r *Report) {
+	r.Rule("pad-validated", "ipmi.AES128CBC.DecodeFromBytes succeeds only after bounding the pad length by the block size and comparing every pad byte with a counter starting at 1", 3)
+	aes := c.Method("pkg/ipmi", "AES128CBC", "DecodeFromBytes")
+	if aes == nil {
+		r.Lost("ipmi.AES128CBC.DecodeFromBytes")
+	} else {
+		name := c.FnName(aes)
+		r.Fn(name)
+		// Decided on engine E2's comparison events, whatever form the loop takes: on every
+		// success path (1) the pad-length byte P — the last byte of the input — is at most
+		// the block size; (2) a loop compares consecutive bytes, from index (last − P) up to
+		// the pad-length byte, with 1,2,3,…, on every iteration; (3) no comparison of an
+		// input byte came out unequal on a path that succeeds.
+		evs, why := extractEvents(c, aes, nil)
+		nOK := 0
+		okCmp, okMis, okLoop, okBound := true, true, true, true
+		whyCmp := why
+		for _, le := range evs {
+			if !le.OK {
+				continue
+			}
+			nOK++
+			// the pad-length byte: a loaded input byte at index len(data)−1
+			var padSym Sym = -1
+			var lastIdx Lin
+			for sy, ref := range le.Elem {
+				if ref.Org != "d" || len(ref.Idx.T) != 1 || ref.Idx.C != -1 {
+					continue
+				}
+				for ls, k := range ref.Idx.T {
+					if k == 1 && strings.HasPrefix(le.SymName(ls), "len(") && (padSym < 0 || sy < padSym) {
+						padSym, lastIdx = sy, ref.Idx
+					}
+				}
+			}
+			if padSym < 0 {
+				okCmp, whyCmp = false, "the pad-length byte (last input byte) is never read"
+				continue
+			}
+			P := linSym(padSym)
+			if !entails(le.Cons, leq(P, linConst(16))) {
+				okBound = false
+			}
+			for _, ev := range le.eventsOf("cmp", "d") {
+				if strings.HasPrefix(ev.Val, "ne") {
+					okMis = false
+				}
+			}
+			found := false
+			last := "no loop compares the pad bytes with 1,2,3,…"
+			for _, ev := range le.eventsOf("loop:cmp", "d") {
+				if !strings.HasPrefix(ev.Val, "eq") {
+					continue
+				}
+				run, w := runOf(ev)
+				if w != "" {
+					last = w
+					continue
+				}
+				if !linEq(run.V0, linConst(1)) || run.VAdv != 1 {
+					last = "the expected pad values do not start at 1 and rise by 1"
+					continue
+				}
+				if !linEq(run.Idx0, lastIdx.add(P, -1)) {
+					last = "the comparison does not start at the first pad byte (last − pad length)"
+					continue
+				}
+				if cov, w := run.coversUpTo(lastIdx, le.Cons); !cov {
+					last = w
+					continue
+				}
+				// on every way round the loop
+				every := true
+				for _, mk := range le.Events {
+					if mk.Kind != "loop:path" || mk.Loop == nil || mk.Loop.Pos != ev.Loop.Pos {
+						continue
+					}
+					has := false
+					for _, e2 := range le.eventsOf("loop:cmp", "d") {
+						if e2.Loop != nil && strings.Join(e2.Loop.Guard, " ∧ ") == mk.Name && strings.HasPrefix(e2.Val, "eq") && e2.Pos == ev.Pos {
+							has = true
+						}
+					}
+					if !has {
+						every = false
+					}
+				}
+				if !every {
+					okLoop = false
+					last = "an iteration can continue without the pad byte having compared equal"
+					continue
+				}
+				found = true
+			}
+			if !found {
+				okCmp, whyCmp = false, last
+			}
+		}
+		if nOK == 0 {
+			r.Unk(name+"|pad-byte comparison", aes.Pos(), "no success path extracted: "+why)
+		} else {
+			r.Check(okCmp, name+"|pad-byte comparison", aes.Pos(), "a loop compares pad byte k with k, k = 1…n, for exactly the n bytes before the pad-length byte", "no loop comparing each confidentiality pad byte with its expected value 1,2,3,…: "+whyCmp)
+			r.Check(okMis, name+"|pad mismatch is an error", aes.Pos(), "no success path has an unequal pad comparison", "a mismatching pad byte does not lead to an error return")
+			r.Check(okLoop, name+"|success passes the pad loop", aes.Pos(), "every iteration compares", "the pad comparison is skipped on some iterations")
+			r.Check(okBound, name+"|pad length bounded", aes.Pos(), "pad length ≤ block size on success", "the pad-length byte is not bounded by the block size before use")
+		}
+	}
 }
